@@ -3,7 +3,7 @@
 // Bounded exhaustive enumeration of four input families
 //
 //	(1) tok    all token sequences up to a length bound over a 52-token alphabet
-//	(2) bytes  all byte strings up to a length bound (all 256 values; longer over 16 hostile bytes)
+//	(2) bytes  all byte strings up to a length bound (all 256 values; longer over 17 hostile bytes)
 //	(3) edit   the complete 1-token-edit neighbourhood of a corpus of valid programs
 //	(4) limits generated boundary programs (symbol/constant counts, nesting depth)
 //
@@ -458,7 +458,7 @@ func (c *coord) buildJobs(th bool) {
 		if k <= b.B16FullCfg {
 			cn = "full"
 		}
-		chunked(c, Job{Part: "bytes", Alpha: "b16", K: k, Cfg: cn, Thorough: th}, ipow(16, k), chunkFor(cn))
+		chunked(c, Job{Part: "bytes", Alpha: "b16", K: k, Cfg: cn, Thorough: th}, ipow(len(bytes16), k), chunkFor(cn))
 	}
 }
 
@@ -592,7 +592,7 @@ func main() {
 	r.Set("token_mid_alphabet_len4_quick", tokMid)
 	r.Set("token_core_alphabet_len4_thorough", tokCore)
 	r.Set("token_sub_alphabet_len5_thorough", tokSub)
-	r.Set("byte_alphabet_16", fmt.Sprintf("%q", bytes16))
+	r.Set("byte_alphabet_17", fmt.Sprintf("%q", bytes16))
 	r.Set("bounds", fmt.Sprintf("%+v", b))
 	r.Set("corpus_valid_programs", len(corpusValid))
 	r.Set("corpus_seed_programs", len(corpusSeeds))
